@@ -19,6 +19,8 @@ from vcheck.core import Task, Violation
 ID = 'C04'
 LEVEL = 'exploration'
 BUDGET = {'quick': 45, 'thorough': 420}
+# deterministic sub-checks repeated in a `python -O` child (core.optimized_child)
+OPT_SUBS = ('probe', 'pairs')
 RULE = ('single: every pinned key (35) x letter case / digit suffix (quick: '
         'lower, aLtErNaTiNg+7; thorough: lower, UPPER, Capitalised, '
         'aLtErNaTiNg, lower+1, UPPER+2024) x every rendering (27 '
